@@ -149,8 +149,9 @@ def run(ctx):
                     cells[js["cls"]] = js
     recs, items = [], []
     vias = ["insert_python", "insert_python_two", "append_python", "constant_args"]
-    for cls, reps in REPS.items():
-        for v in reps:
+    passes = [(cls, v) for cls, reps in REPS.items() for v in reps]
+    for cls, v in passes + passes[::-1]:
+        if True:
             for via in vias + (["cli_inject", "cli_create"] if isinstance(v, str) else []):
                 rec = {"id": len(recs), "kind": "inject", "cls": cls, "via": via, "value": repr(v)[:60], "outcome": "", "detail": ""}
                 try:
